@@ -289,16 +289,27 @@ def format_names(format_list: list) -> frozenset:
 
 
 def _attribute(spec: dom.ClassSpec, found: list) -> None:
-    """Candidate formats of each finding: the failing field's format if it is known, else all of the class."""
+    """
+    Candidate formats of each finding (whose packer could be to blame): for wrong bytes the format of the differing
+    field; for a wrong decoded attribute the formats of that field and of every field in front of it (a packer
+    returning a wrong offset corrupts what follows); otherwise every format of the class.
+    """
     if not found:
         return
     if spec.key not in _FORMAT_NAMES:
         _FORMAT_NAMES[spec.key] = format_names(spec.ref_format_list)
     for f in found:
-        if f.oracle in ("roundtrip", "wire-bytes") and f.fmt is not None and f.fmt not in ("payload", "payload-list"):
+        f.cands = _FORMAT_NAMES[spec.key]
+        if f.fmt is None or f.fmt in ("payload", "payload-list") or spec.origin == "hand-written":
+            continue
+        if f.oracle == "wire-bytes":
             f.cands = frozenset([f.fmt])
-        else:
-            f.cands = _FORMAT_NAMES[spec.key]
+        elif f.oracle == "roundtrip":
+            attr = f.detail.split("@")[0]
+            for i, field in enumerate(spec.fields):
+                if attr in field.names:
+                    f.cands = format_names(spec.ref_format_list[:i + 1])
+                    break
 
 
 def evaluate_class_once(spec: dom.ClassSpec) -> tuple[list, int]:
